@@ -9,7 +9,7 @@ KIND_PROPS = {
     "pagesiter": ["C01"], "counts": ["C01", "C03", "C19"], "report.pages": ["C01"],
     "lrunode": ["C02"], "windup": ["C02"], "dfs": ["C02"],
     "pagelinksof": ["C03"], "linksiter": ["C03"], "pagedeg": ["C03"],
-    "retrievewe": ["C04"], "retrieveprefix": ["C04"], "webyprefix": ["C04", "C02"], "prefixiter": ["C04", "C12"],
+    "retrievewe": ["C04", "C05"], "retrieveprefix": ["C04"], "webyprefix": ["C04", "C02"], "prefixiter": ["C04", "C12"],
     "edit": ["C04"],
     "pages": ["C05"], "crawledpages": ["C05"],
     "report.we": ["C06", "C12"], "potential": ["C06"],
@@ -113,6 +113,8 @@ class Judge(object):
             raise Unknown()
         if w[0] == "init":
             self.cos = {}
+        if w[0] == "pokeid":
+            self.max_id = max(self.max_id, int(w[1]))
         if w[0] in ("init", "clear", "overwrite"):
             self.max_id = 0
             self.epis = {}
